@@ -479,10 +479,31 @@ ZoneStep ==
                    /\ EmitTime(ZoneCase(form, op, Bin(op, TNode(t, "a"), TNode(u, "b")), binds,
                                          BoolL(CmpResult(op, Cmp(FromDec(t.ns), FromDec(u.ns)))), extra))
 
+\* ------------------------------------------------------------------ deep trees (Mode = "deep")
+\* Chains of N additions with the only variable at the DEEPEST leaf, bound at Reduce time (and, second case, only at
+\* evaluation time): left-deep, right-deep behind parentheses, and N pairs of parentheses around one addition.  A
+\* folder that gives up below some depth must still substitute and preserve the value.
+RECURSIVE LeftDeep(_), RightDeep(_), Parens(_, _)
+LeftDeep(n) == IF n = 0 THEN Ref("a") ELSE Bin("+", LeftDeep(n - 1), IntL("1"))
+RightDeep(n) == IF n = 0 THEN Ref("a") ELSE Bin("+", IntL("1"), Paren(RightDeep(n - 1)))
+Parens(e, n) == IF n = 0 THEN e ELSE Paren(Parens(e, n - 1))
+DeepSizes == {3, 31, 32, 33, 63, 64, 65, 99, 100, 101, 102, 110, 127, 128, 129, 200}
+DeepStep == /\ pc = "deep"
+            /\ \E n \in DeepSizes : \E at \in {1, 2} : \E sh \in {"left", "right", "parens"} :
+                 \* (the JSON reader of the judge stops at nesting depth 255; right-deep and parenthesised trees nest two levels per step)
+                 /\ (sh = "left" \/ n <= 110)
+                 /\ LET tree == CASE sh = "left" -> LeftDeep(n) [] sh = "right" -> RightDeep(n)
+                               [] sh = "parens" -> Bin("*", Parens(Bin("+", Ref("a"), IntL("1")), n), IntL("2"))
+                     binds == <<[n |-> "a", val |-> [t |-> "int", v |-> "5"], at |-> at]>>
+                     c == [fam |-> "expr", sub |-> "deep", via |-> "ast", tree |-> tree, binds |-> binds, depth |-> n, alts |-> <<>>]
+                    IN /\ CSVWrite("%1$s", <<ToJson(c)>>, CaseFile)
+                       /\ out' = [tree |-> Ref("a"), binds |-> binds]
+            /\ pc' = "done" /\ UNCHANGED g
+
 Init == /\ g = G0 /\ out = NoOut
-        /\ pc = CASE Mode = "time" -> "time" [] Mode = "chain" -> "chain" [] Mode = "zone" -> "zone" [] OTHER -> "op"
+        /\ pc = CASE Mode = "time" -> "time" [] Mode = "chain" -> "chain" [] Mode = "zone" -> "zone" [] Mode = "deep" -> "deep" [] OTHER -> "op"
 Next == ChooseOp \/ ChooseCls \/ ChooseSide \/ ChooseTop \/ ChooseVal \/ ChooseForm \/ Fin \/ TimeStep
-        \/ ChainOps \/ ChainVars \/ ChainEvalStep \/ ChainFin \/ ZoneChoose \/ ZoneStep \/ Done
+        \/ DeepStep \/ ChainOps \/ ChainVars \/ ChainEvalStep \/ ChainFin \/ ZoneChoose \/ ZoneStep \/ Done
 Spec == Init /\ [][Next]_vars
 
 \* ------------------------------------------------------------------ pass M invariants
